@@ -1,0 +1,121 @@
+// Verification contracts (comment-only, compiled only with the "verif" build tag; read by /verif/govc).
+
+//go:build verif
+// +build verif
+
+package types
+
+// Contracts for transaction_signing.go / transaction.go — property C17, the authenticity half:
+// the V value binds the signature to this network, malleable (high-s) and out-of-range signature values are rejected,
+// and the address is recovered from (Hash(tx), R, S, V - 2*networkId - 35) and nothing else.
+// Keccak-256, RLP and ECDSA public-key recovery are not modelled (callees are havocked): that the recovered address is the
+// key holder's, and that the hash separates different field values, are the standing idealisations of the property.
+
+// transaction_signing.go:113 `var big8 = big.NewInt(8)`, never written again.
+//@ axiom [c17.big8] big8 != nil && big(big8) == 8
+
+// deriveNetworkId: exact for the values an RLP-decoded V can take.
+//@ func deriveNetworkId props C17
+//@ requires v != nil
+//@ modifies nothing
+//@ ensures result != nil
+//@ ensures [small] 0 <= old(big(v)) && old(big(v)) < 2^64 ==>
+//@     big(result) == (if old(big(v)) == 27 || old(big(v)) == 28 then 0 else wrap64(old(big(v)) - 35) / 2)
+//@ ensures [large] old(big(v)) >= 2^64 ==> big(result) == (old(big(v)) - 35) / 2
+//@ ensures [v-unchanged] big(v) == old(big(v))
+
+// recoverPlain: an address is produced only for a recovery value 27/28 and signature values in range with s in the lower half.
+//@ func recoverPlain props C17
+//@ opt abstract-slices                   // the byte-level marshalling of (r, s, v) into the 65-byte signature is not decided here
+//@ requires R != nil && S != nil && Vb != nil && big(Vb) >= 0
+//@ ensures [v-is-recovery-bit] result1 == nil ==> old(big(Vb)) == 27 || old(big(Vb)) == 28
+//@ ensures [signature-values-valid] result1 == nil ==> c17SigOK(old(big(Vb)) - 27, old(big(R)), old(big(S)), homestead)
+//@ ensures [high-s-rejected] homestead && 2 * old(big(S)) > c17N() ==> result1 != nil
+
+// Hashing does not modify what it hashes (rlp.Encode reads the value, Keccak writes its own sponge and the result array).
+// ASSUMED, not verified (RLP encoder and Keccak are outside the modelled subset).
+//@ func rlpHash props C17
+//@ nobody
+//@ modifies nothing
+
+// The signing hash is computed without modifying the transaction or the signer. Which fields enter the hash is NOT decided by
+// the engine (no access to the contents of the []interface{} literal from the contract language), see props/C17.json.
+//@ func (YouSigner).Hash props C17
+//@ requires tx != nil
+//@ modifies nothing
+
+// a signer for network id nid: networkIdMul = 2*nid (NewYouSigner); real network ids are far below 2^62
+//@ spec func c17SignerOK(s: YouSigner) bool =
+//@     s.networkId != nil && s.networkIdMul != nil && s.networkId != s.networkIdMul &&
+//@     0 <= big(s.networkId) && big(s.networkId) < 2^62 && big(s.networkIdMul) == 2 * big(s.networkId)
+
+//@ func NewYouSigner props C17
+//@ requires networkId < 2^62
+//@ ensures [well-formed] c17SignerOK(result) && big(result.networkId) == networkId
+
+// Sender: V ∈ {2·nid+35, 2·nid+36} or the transaction is rejected (so a signature made for another network id, or a
+// mutated V, is rejected); the recovery is called on exactly Hash(tx), tx.R, tx.S and V − 2·nid − 8.
+//@ func (YouSigner).Sender props C17
+//@ requires tx != nil && tx.data.V != nil && tx.data.R != nil && tx.data.S != nil && c17SignerOK(s)
+//@ requires big(tx.data.V) >= 0                                   // RLP-decoded and SignatureValues-produced V are non-negative
+//@ requires tx.data.V != s.networkId && tx.data.V != s.networkIdMul && tx.data.V != big8
+//@ let nid = big(s.networkId)
+//@ let v = big(tx.data.V)
+//@ assert before call recoverPlain: [recovers-from-this-signature] a1 == tx.data.R && a2 == tx.data.S && a4 && big(a3) == old(big(tx.data.V)) - 2 * old(big(s.networkId)) - 8
+//@ ensures [not-protected] v == 27 || v == 28 ==> result1 == ErrNotProtected
+//@ ensures [wrong-network] v != 27 && v != 28 && v != 2 * nid + 35 && v != 2 * nid + 36 ==> result1 == ErrInvalidNetworkId
+//@ ensures [network-bound] result1 == nil ==> v == 2 * nid + 35 || v == 2 * nid + 36
+//@ ensures [signature-values-valid] result1 == nil ==> c17SigOK(v - 2 * nid - 35, old(big(tx.data.R)), old(big(tx.data.S)), true)
+//@ ensures [high-s-rejected] 2 * old(big(tx.data.S)) > c17N() ==> result1 != nil
+
+// ---------------------------------------------------------------------------------------------------------------
+// From a transaction to the message that is applied (used by core.(*StateProcessor).ApplyTransaction)
+// ---------------------------------------------------------------------------------------------------------------
+
+// The caches (atomic.Value) are outside the model: these two only fill their cache. ASSUMED (`nobody`).
+//@ func Sender props C17
+//@ nobody
+//@ modifies tx.from
+
+//@ func (*Transaction).Hash props C17
+//@ nobody
+//@ modifies tx.hash
+
+//@ func CreateBloom props C17
+//@ nobody
+//@ pure
+
+//@ func NewReceipt props C17
+//@ nobody
+//@ modifies nothing
+//@ ensures fresh(result) && result.CumulativeGasUsed == cumulativeGasUsed
+
+//@ func (*Transaction).GasPrice props C17
+//@ requires tx != nil && tx.data.Price != nil
+//@ modifies nothing
+//@ ensures [copy] fresh(result) && big(result) == big(tx.data.Price)
+
+//@ func (*Transaction).To props C17
+//@ requires tx != nil
+//@ modifies nothing
+//@ ensures [nil-iff-creation] (result == nil) == (tx.data.Recipient == nil)
+
+// AsMessage copies the transaction's fields; the price is a fresh copy.
+//@ func (*Transaction).AsMessage props C17
+//@ requires tx != nil && tx.data.Price != nil
+//@ modifies tx.from, tx.hash
+//@ ensures [fields] result0.gasLimit == tx.data.GasLimit && result0.nonce == tx.data.AccountNonce && result0.checkNonce &&
+//@     result0.to == tx.data.Recipient && result0.amount == tx.data.Amount
+//@ ensures [price] result0.gasPrice != nil && fresh(result0.gasPrice) && big(result0.gasPrice) == big(tx.data.Price)
+
+// A cached sender (types.Sender) is reused only for a signer of the same network id.
+//@ func (YouSigner).Equal props C17
+//@ requires s.networkId != nil && (hastype(s2, YouSigner) ==> unbox(s2, YouSigner).networkId != nil)
+//@ modifies nothing
+//@ ensures [same-network-only] result == (hastype(s2, YouSigner) && big(unbox(s2, YouSigner).networkId) == big(s.networkId))
+
+// Signing side: V encodes the recovery bit and the network id the way Sender expects it.
+//@ func (YouSigner).SignatureValues props C17
+//@ requires len(sig) == 65 && c17SignerOK(s)
+//@ ensures [zero-network-refused] big(s.networkId) == 0 ==> err == ErrInvalidNetworkId
+//@ ensures [v-encodes-network] err == nil ==> V != nil && big(V) == wrap8(old(sig[64]) + 35) + 2 * old(big(s.networkId))
